@@ -127,7 +127,7 @@ def signature(rw, schema):
 
 def run(ctx):
     thorough = ctx["tier"] == "thorough"
-    n = 6000 if thorough else 500
+    n = 6000 if thorough else 500 * ctx.get('scale', 1)
     violations, samples = [], []
     dist = collections.Counter()
     cases = 0
